@@ -277,6 +277,9 @@ func (m *CSMatrix) Mmap(ctx context.Context) error {
 	entries := unsafe.Slice(e0, nnz)
 	logger.Trace().Msg("copying")
 	var start int
+	// The receiver keeps its current spans until all of them are copied,
+	// so that a cancelled swap-out leaves it intact.
+	swapped := make([][]Entry, len(m.Entries), cap(m.Entries))
 	for major := range m.Entries {
 		select {
 		case <-ctx.Done():
@@ -284,8 +287,12 @@ func (m *CSMatrix) Mmap(ctx context.Context) error {
 		default:
 		}
 		stride := len(m.Entries[major])
-		span := entries[start : start+stride]
+		if stride == 0 {
+			continue
+		}
+		span := entries[start : start+stride : start+stride]
 		copy(span, m.Entries[major])
+		swapped[major] = span
 		start += stride
 	}
 	if start != nnz {
@@ -299,6 +306,7 @@ func (m *CSMatrix) Mmap(ctx context.Context) error {
 			logger.Err(err).Msg("cannot Munmap() old mapping while remapping")
 		}
 	}
+	m.Entries = swapped // rows now live in the mapping, not on the heap
 	m.mapped = mapped
 	mapped = nil
 	logger.Trace().Msg("done")
